@@ -2165,6 +2165,33 @@ func runFarm(run *ev.Run, c int, mode string) {
 			run.Count("late-small-stakers-prelude", 1)
 		}
 	}
+	// prelude of case 1: one unit of reward per block; one farmer stakes 2, a block later (reward per share 0.5) two others
+	// each stake 1 and top up by 2 in the same block, then four quiet blocks bring the reward per share to exactly 1:
+	// no remainder of anybody's rounding is left to cover a unit paid too much when, in the what-if, everybody leaves
+	if c%16 == 1 {
+		v := g.view()
+		cr := g.creators[0]
+		deliver([]rig.Tx{r.Mk(cr, &farmTag{Kind: "create", Note: "same-block-top-up"}, &farmtypes.MsgCreatePool{Description: "same-block-top-up", LptDenom: v.lpts[0], StartHeight: v.h, RewardPerBlock: sdk.NewCoins(coin("rww", big.NewInt(1))), TotalReward: sdk.NewCoins(coin("rww", big.NewInt(40))), Editable: false, Creator: cr.Addr.String()})})
+		if p, ok := newest("same-block-top-up"); ok && len(g.farmers) >= 3 {
+			v = g.view()
+			tx, _ := g.mkStake(v, p, g.farmers[0], big.NewInt(2), "")
+			deliver([]rig.Tx{tx})
+			v = g.view()
+			var txs []rig.Tx
+			for _, a := range g.farmers[1:3] {
+				for _, n := range []int64{1, 2} {
+					if tx, ok := g.mkStake(v, p, a, big.NewInt(n), ""); ok {
+						txs = append(txs, tx)
+					}
+				}
+			}
+			deliver(txs)
+			for i := 0; i < 4; i++ {
+				deliver(nil)
+			}
+			run.Count("same-block-top-up-prelude", 1)
+		}
+	}
 	endgame := blocks - 24
 	for b := 0; b < blocks; b++ {
 		restartFromOwnExport(run, r, c, b, blocks)
